@@ -1,5 +1,7 @@
 /- C08: whatever bytes a decoder accepts, re-encoding the result reproduces those bytes. -/
-import FinProto.Obl.Side
+import FinProto.Obl.SFramesTop
+import FinProto.Obl.SKeys
+import FinProto.Obl.SMirror
 import FinProto.Props.DecEnc
 namespace FinProto.Obl
 open FinProto
